@@ -20,7 +20,7 @@ def _one(args):
     px = os.path.join(outdir, "f%06d_x.e57" % i)
     open(px, "wb").write(img)
     meta = {"file": px, "i": i, "layout": "exotic", "lexical": sorted(info["lexical"]), "packet_kinds": info["packet_kinds"], "split_shapes": sorted(info["split_shapes"]),
-            "start_residues": info["start_residues"], "xml_start_residue": info["xml_start_residue"], "xml_first": lay["xml_first"], "packets": lay["packets"]}
+            "start_residues": info["start_residues"], "xml_start_residue": info["xml_start_residue"], "xml_first": lay["xml_first"], "packets": lay["packets"], "tail": lay.get("tail", "free") if lay["xml_first"] else "n/a"}
     out.append(meta)
     if mode == "general":
         # the same scene in the plain layout as control: a difference between the two localises a fault
